@@ -161,6 +161,9 @@ func cmdCheck(args []string) int {
 			continue
 		}
 		k := key{f.wv.Viol.Class, f.wv.Viol.Sig}
+		if k.class == "data-race" {
+			k.sig = "" // minimise one representative race per check
+		}
 		if seen[k] {
 			continue
 		}
@@ -348,9 +351,14 @@ func execInChild(sc *Scenario) ([]Violation, error) {
 	return eo.Viol, nil
 }
 
+// sameViolation finds the violation being minimised or replayed among vs. For
+// data races the class alone decides: one racy execution usually contains
+// several conflicting pairs, and which of them the detector reports first
+// depends on its bounded per-word shadow state, not only on the schedule. A
+// report is never invented, so any report is the reproduction.
 func sameViolation(vs []Violation, class, sig string) *Violation {
 	for i := range vs {
-		if vs[i].Class == class && vs[i].Sig == sig {
+		if vs[i].Class == class && (vs[i].Sig == sig || class == "data-race") {
 			return &vs[i]
 		}
 	}
@@ -362,19 +370,28 @@ func sameViolation(vs []Violation, class, sig string) *Violation {
 func minimiseAndConfirm(f foundViol) (string, Violation, bool) {
 	v := f.wv.Viol
 	sc := f.wv.Scenario
+	if sc.Race && v.Class != "data-race" {
+		// a functional violation found in a race profile: the plain binary reproduces it, much faster
+		sc = sc.Clone()
+		sc.Race = false
+	}
 	oracle := func(c *Scenario) bool {
 		vs, err := execInChild(c)
 		if err != nil {
+			if os.Getenv("RUXSIM_DEBUG") != "" {
+				fmt.Fprintln(os.Stderr, "ruxsim: candidate execution failed:", err)
+			}
 			return false
 		}
 		return sameViolation(vs, v.Class, v.Sig) != nil
 	}
 	if !oracle(sc) {
+		fmt.Fprintln(os.Stderr, "ruxsim: the scenario as found did not fail again in a fresh process")
 		return "", v, false
 	}
-	budget := 400
+	budget := 600
 	if sc.Race {
-		budget = 150
+		budget = 240
 	}
 	small := Shrink(sc, oracle, budget)
 	vs, err := execInChild(small)
@@ -383,6 +400,7 @@ func minimiseAndConfirm(f foundViol) (string, Violation, bool) {
 	}
 	got := sameViolation(vs, v.Class, v.Sig)
 	if got == nil {
+		fmt.Fprintln(os.Stderr, "ruxsim: the minimised scenario did not fail again in a fresh process:", string(small.JSON()))
 		return "", v, false
 	}
 	small.Expect = &Expect{Class: got.Class, Sig: got.Sig, Detail: got.Detail}
